@@ -367,6 +367,29 @@ func (g *gen) file1(pkg, file string, decls int) string {
 	g.pkg, g.file = pkg, file
 	g.emit("package " + pkg)
 	g.emit("")
+	// imports whose trailing comments sit on the line directly above the first declaration (no blank line between):
+	// they belong to the import, never to the declaration below
+	switch g.r.Intn(5) {
+	case 1:
+		g.emit(`import _ "embed" // ` + g.mark())
+		g.prevTrailing = "import-trailing"
+	case 2:
+		g.emit("import (")
+		g.emit("\t_ \"embed\" // " + g.mark())
+		g.emit(") // " + g.mark())
+		g.prevTrailing = "import-group-close-trailing"
+	case 3:
+		g.emit("// +importDoc=" + g.mark())
+		g.emit(`import _ "embed" /* ` + g.mark() + " */")
+		g.prevTrailing = "import-trailing"
+	case 4:
+		g.emit("import (")
+		g.emit("\t_ \"embed\"")
+		g.emit("\t// " + g.mark())
+		g.emit("\t_ \"unsafe\" // +" + g.mark())
+		g.emit(")")
+		g.prevTrailing = ""
+	}
 	for i := 0; i < decls; i++ {
 		if g.r.Intn(12) == 0 {
 			// a //line directive (generated sources: goyacc, templates): every position after it is reported under
